@@ -11,6 +11,8 @@ import (
 	"io"
 	"log/slog"
 	"net/http"
+	"net/http/httptest"
+	"runtime"
 	"sort"
 	"strconv"
 	"strings"
@@ -345,6 +347,8 @@ func vfC17Server(level int, setLevel bool) (*HttpServer, error) {
 	srv := NewServer()
 	srv.SetServerID("srv-c17")
 	Unary(srv, "blob", func(ctx context.Context, cc *CallContext, p VfC17BlobParams) ([]byte, error) {
+		vfC17Point("handler-entry")
+		defer vfC17Point("handler-exit")
 		if p.Kind == 1 {
 			return vfC17Incompressible(int(p.N)), nil
 		}
@@ -371,8 +375,12 @@ func vfC17Server(level int, setLevel bool) (*HttpServer, error) {
 		default:
 			w.Header().Set("Content-Type", "application/json")
 		}
+		vfC17Point("handler-entry")
 		w.WriteHeader(200)
-		_, _ = w.Write(body)
+		_, _ = w.Write(body[:len(body)/2])
+		vfC17Point("handler-mid")
+		_, _ = w.Write(body[len(body)/2:])
+		vfC17Point("handler-exit")
 	})
 	return h, err
 }
@@ -413,6 +421,128 @@ func vfC17Do(h http.Handler, src vfC17Source, custom, standard string, sendCusto
 }
 
 // levels: DESIGN §7 list plus 2 and 4 (the only other values klauspost accepts); quick keeps 5 of them
+// ---------------------------------------------------------------------------
+// Overlapping responses: request B is served, start to finish, at one chosen
+// point of request A's life — inside A's handler (entry / between its writes /
+// exit) or inside any call A's envelope makes on the underlying ResponseWriter
+// (every Header(), the WriteHeader, every Write). That is every interleaving of
+// two requests in which B is atomic; both share the server, its codec pools and
+// whatever per-process state the envelope keeps.
+
+var vfC17Hook func(point string)
+
+func vfC17Point(p string) {
+	if vfC17Hook != nil {
+		vfC17Hook(p)
+	}
+}
+
+type vfC17NestWriter struct {
+	rec   *httptest.ResponseRecorder
+	n     int
+	at    int
+	fire  func()
+	trace []string
+}
+
+func (w *vfC17NestWriter) event(name string) {
+	if w.n == w.at && w.fire != nil {
+		f := w.fire
+		w.fire = nil
+		f()
+	}
+	w.trace = append(w.trace, name)
+	w.n++
+}
+func (w *vfC17NestWriter) Header() http.Header { w.event("w.Header"); return w.rec.Header() }
+func (w *vfC17NestWriter) WriteHeader(c int)    { w.event("w.WriteHeader"); w.rec.WriteHeader(c) }
+func (w *vfC17NestWriter) Write(p []byte) (int, error) {
+	w.event("w.Write")
+	return w.rec.Write(p)
+}
+
+// vfC17Nested serves src with the given accept headers; at event index `at` of
+// its life `inner` runs (at < 0: never). Returns the recorder and the event trace.
+func vfC17Nested(h http.Handler, src vfC17Source, custom, standard string, at int, inner func()) (*httptest.ResponseRecorder, []string, any) {
+	var rd io.Reader
+	if src.body != nil {
+		rd = bytes.NewReader(src.body())
+	}
+	req := httptest.NewRequest(src.method, src.path, rd)
+	if src.method == "POST" {
+		req.Header.Set("Content-Type", arrowContentType)
+	}
+	if custom != "" {
+		req.Header.Set(customAcceptEncodingHeader, custom)
+	}
+	if standard != "" {
+		req.Header.Set(acceptEncodingHeader, standard)
+	}
+	nw := &vfC17NestWriter{rec: httptest.NewRecorder(), at: at, fire: inner}
+	prev := vfC17Hook
+	vfC17Hook = func(p string) {
+		// the inner request's own handler must not re-enter
+		saved := vfC17Hook
+		vfC17Hook = nil
+		nw.event("hook:" + p)
+		vfC17Hook = saved
+	}
+	var panicked any
+	func() {
+		defer func() { panicked = recover() }()
+		h.ServeHTTP(nw, req)
+	}()
+	vfC17Hook = prev
+	return nw.rec, nw.trace, panicked
+}
+
+// vfC17CheckOwn checks one response of an overlapped pair against its own
+// uncompressed body: lossless, stamped as negotiated, never somebody else's bytes.
+func vfC17CheckOwn(x *venum.X, who, point string, src vfC17Source, custom, standard string, raw []byte, rec *httptest.ResponseRecorder) string {
+	hdr, body := rec.Header(), rec.Body.Bytes()
+	std, cst := hdr.Values(contentEncodingHeader), hdr.Values(customContentEncodingHeader)
+	stamped, stampCustom := "", false
+	switch {
+	case len(std)+len(cst) == 0:
+	case len(std) == 1 && len(cst) == 0:
+		stamped = std[0]
+	case len(std) == 0 && len(cst) == 1:
+		stamped, stampCustom = cst[0], true
+	default:
+		x.Failf("C17:overlap:double-stamp:"+who+":"+point, "%s: Content-Encoding=%v X-VGI-Content-Encoding=%v", src.name, std, cst)
+		return "double"
+	}
+	adv, _ := vfC17Advertised(hdr)
+	want := vfC17Ref(custom, standard, adv)
+	isArrow := hdr.Get("Content-Type") == arrowContentType
+	codec := stamped
+	if codec == "" {
+		codec = "none"
+	}
+	switch {
+	case stamped == "":
+		if !bytes.Equal(body, raw) {
+			x.Failf("C17:overlap:unstamped-body-differs:"+who+":"+point, "%s: body (%d B) differs from this request's uncompressed body (%d B) while another response was served at %s", src.name, len(body), len(raw), point)
+		}
+		if isArrow && src.big && !want[vfC17Pick{}] {
+			x.Failf("C17:overlap:not-compressed:"+who+":"+point, "%s custom=%q standard=%q: not compressed", src.name, custom, standard)
+		}
+	case !isArrow:
+		x.Failf("C17:overlap:non-arrow-compressed:"+who+":"+point, "%s stamped %q", src.name, stamped)
+	default:
+		if !want[vfC17Pick{stamped, stampCustom}] {
+			x.Failf("C17:overlap:stamp:"+who+":"+codec+":"+point, "%s custom=%q standard=%q: stamped %q (custom header=%v), statement allows %s", src.name, custom, standard, stamped, stampCustom, vfC17RefString(want))
+		}
+		dec, err := vfC17Decode(stamped, body)
+		if err != nil {
+			x.Failf("C17:overlap:undecodable:"+who+":"+codec+":"+point, "%s: body does not decode as %s when another response is served at %s: %v", src.name, stamped, point, err)
+		} else if !bytes.Equal(dec, raw) {
+			x.Failf("C17:overlap:lossy:"+who+":"+codec+":"+point, "%s: decoded body (%d B) is not this request's uncompressed body (%d B) when another response is served at %s", src.name, len(dec), len(raw), point)
+		}
+	}
+	return fmt.Sprintf("%s/%v/%d", codec, stampCustom, rec.Code)
+}
+
 var vfC17Levels = venum.QT([]int{-1, 0, 1, 3, 11}, []int{-1, 0, 1, 2, 3, 4, 9, 11, 19})
 
 func TestVerif_C17(t *testing.T) {
@@ -617,4 +747,82 @@ func TestVerif_C17(t *testing.T) {
 		}
 		x.Outcome("%s code=%d adv=%v produced=%v lerr=%v", k.name, rec.Code, adv, produced, lerr != nil)
 	})
+
+	// ---- space 4: two responses overlapping ------------------------------------
+	blob := func(n, kind int64) func() []byte {
+		return func() []byte {
+			return vfRequest("blob", vfBatchJSON(vfI64Schema("n", "kind"), fmt.Sprintf(`[{"n":%d,"kind":%d}]`, n, kind)))
+		}
+	}
+	outers := []vfC17Source{
+		{name: "arrow-custom-64K-compressible", method: "GET", path: "/x/arrow/65536/c", arrow: true, big: true},
+		{name: "arrow-unary-64K-compressible", method: "POST", path: "/blob", arrow: true, big: true, body: blob(65536, 0)},
+		{name: "arrow-custom-64K-incompressible", method: "GET", path: "/x/arrow/65536/r", arrow: true},
+		{name: "arrow-custom-1B", method: "GET", path: "/x/arrow/1/c", arrow: true},
+		{name: "html-custom-64K", method: "GET", path: "/x/html/65536/c"},
+	}
+	inners := []vfC17Source{
+		{name: "arrow-custom-40000-compressible", method: "GET", path: "/x/arrow/40000/c", arrow: true},
+		{name: "arrow-unary-20000-compressible", method: "POST", path: "/blob", arrow: true, body: blob(20000, 0)},
+		{name: "arrow-custom-3000-incompressible", method: "GET", path: "/x/arrow/3000/r", arrow: true},
+		{name: "json-health", method: "GET", path: "/health"},
+	}
+	if !venum.Thorough() {
+		outers, inners = outers[:3], inners[:2]
+	}
+	type accept struct{ name, custom, standard string }
+	accepts := []accept{{"std-zstd", "", "zstd"}, {"std-gzip", "", "gzip"}, {"custom-zstd", "zstd", ""}, {"none", "", ""}}
+	prevProcs := runtime.GOMAXPROCS(1) // pooled state is per-P: keep both requests on one P
+	venum.Explore(t, venum.Cfg{Name: "overlapping-responses", Shardable: true}, func(x *venum.X) {
+		o := outers[x.Choose(len(outers), "outer")]
+		in := inners[x.Choose(len(inners), "inner")]
+		oa := accepts[x.Choose(venum.QT(3, 4), "outer-accept")]
+		ia := accepts[x.Choose(venum.QT(2, 4), "inner-accept")]
+		level := []int{1, 3}[x.Choose(venum.QT(1, 2), "level")]
+		h, _ := vfC17Server(level, true)
+		_, _, oraw, _ := vfC17Do(h, o, "", "", false, false)
+		_, _, iraw, _ := vfC17Do(h, in, "", "", false, false)
+		// the outer request alone: its event trace defines the nesting points
+		_, trace, p := vfC17Nested(h, o, oa.custom, oa.standard, -1, nil)
+		if p != nil || len(trace) == 0 {
+			x.Failf("C17:overlap:panic:outer-alone", "%v", p)
+			return
+		}
+		at := x.Choose(len(trace), "nest-at")
+		// name the point: event kind + its ordinal among events of that kind
+		ord := 0
+		for i := 0; i < at; i++ {
+			if trace[i] == trace[at] {
+				ord++
+			}
+		}
+		phase := "before-handler"
+		for i := 0; i < at; i++ {
+			if strings.HasPrefix(trace[i], "hook:handler-entry") {
+				phase = "in-handler"
+			}
+			if strings.HasPrefix(trace[i], "hook:handler-exit") {
+				phase = "after-handler"
+			}
+		}
+		point := phase + ":" + trace[at]
+		x.Note("outer %s (%s) ; inner %s (%s) served at event %d = %s #%d of outer; outer trace %v", o.name, oa.name, in.name, ia.name, at, trace[at], ord, trace)
+		var irec *httptest.ResponseRecorder
+		var ip any
+		orec, trace2, op := vfC17Nested(h, o, oa.custom, oa.standard, at, func() {
+			irec, _, ip = vfC17Nested(h, in, ia.custom, ia.standard, -1, nil)
+		})
+		if op != nil || ip != nil {
+			x.Failf("C17:overlap:panic:"+point, "outer %v inner %v", op, ip)
+			return
+		}
+		if irec == nil {
+			x.Failf("C17:overlap:trace-changed:"+point, "outer produced %d events when nested, %d alone", len(trace2), len(trace))
+			return
+		}
+		oo := vfC17CheckOwn(x, "outer", point, o, oa.custom, oa.standard, oraw, orec)
+		io2 := vfC17CheckOwn(x, "inner", point, in, ia.custom, ia.standard, iraw, irec)
+		x.Outcome("%s outer=%s inner=%s", point, oo, io2)
+	})
+	runtime.GOMAXPROCS(prevProcs)
 }
